@@ -161,7 +161,10 @@ pub fn check_forms(ll_opt: Option<&LongLived>, s: &str, st: &mut Stats) {
                 }
             }
         }
-        for b in ["abc", s] {
+        // second operand: a fixed string, the label itself, and its ASCII-case variants (a pair that
+        // is "the same up to case" is where a shortcut would be taken)
+        let (up, low) = (s.to_ascii_uppercase(), s.to_ascii_lowercase());
+        for b in ["abc", s, up.as_str(), low.as_str()] {
             let v = cmp_forms(ll, p, s, b);
             st.evaluations += v.len() as u64;
             st.traces += 1;
